@@ -1673,6 +1673,10 @@ class CodeGenerator(NodeVisitor):
         val = node.as_const(frame.eval_ctx)
         if isinstance(val, float):
             code = str(val)
+
+            # inf and nan have no literal
+            if code in ("inf", "-inf", "nan"):
+                code = f"float({code!r})"
         else:
             code = repr(val)
 
